@@ -629,6 +629,11 @@ func (cs *ConsensusState) addVote(vote *types.Vote, peerID p2p.ID) (bool, error)
 			return false, nil
 		}
 
+		if cs.LastCommit == nil {
+			// cs.Height is the initial height: there is no previous height to collect precommits for
+			return false, nil
+		}
+
 		added, err = cs.LastCommit.AddVote(vote)
 		if !added {
 			return false, err
